@@ -75,7 +75,7 @@ m("C10", "C10-pop-no-underflow-test", "R10-bounds:Pop:underflow", ("state.go", "
 m("C10", "C10-lessthan-swapped", "R10-share:forward:(*LState).LessThan", ("state.go", "\treturn lessThan(ls, lhs, rhs)", "\treturn lessThan(ls, rhs, lhs)"))
 # ---- C11
 m("C11", "C11-dispatch-before-poll", "R11-poll", ("vm.go", "\t\tselect {\n\t\tcase <-L.ctx.Done():\n\t\t\tL.RaiseError(L.ctx.Err().Error())\n\t\t\treturn\n\t\tdefault:\n\t\t\tif jumpTable[int(inst>>26)](L, inst, baseframe) == 1 {\n\t\t\t\treturn\n\t\t\t}\n\t\t}", "\t\tif jumpTable[int(inst>>26)](L, inst, baseframe) == 1 {\n\t\t\treturn\n\t\t}\n\t\tselect {\n\t\tcase <-L.ctx.Done():\n\t\t\tL.RaiseError(L.ctx.Err().Error())\n\t\t\treturn\n\t\tdefault:\n\t\t}"))
-m("C11", "C11-newthread-keeps-plain-loop", "R11-loopsel:(*LState).NewThread:ctx-store", ("state.go", "\t\tthread.mainLoop = mainLoopWithContext\n\t\tthread.ctx, f = context.WithCancel(base)", "\t\tthread.ctx, f = context.WithCancel(base)"))
+m("C11", "C11-newthread-keeps-plain-loop", "R11-loopsel:(*LState).NewThread:ctx-store", ("state.go", "\t\tthread.mainLoop = mainLoopWithContext\n\t\tthread.ctx, f = context.WithCancel(ls.ctx)", "\t\tthread.ctx, f = context.WithCancel(ls.ctx)"))
 m("C11", "C11-receive-always-blocking", "R11-block:channelReceive", ("channellib.go", "\tif L.ctx != nil {\n\t\tcases := []reflect.SelectCase{{\n\t\t\tDir:  reflect.SelectRecv,\n\t\t\tChan: reflect.ValueOf(L.ctx.Done()),\n\t\t\tSend: reflect.ValueOf(nil),\n\t\t}, {\n\t\t\tDir:  reflect.SelectRecv,\n\t\t\tChan: rch,\n\t\t\tSend: reflect.ValueOf(nil),\n\t\t}}\n\t\t_, v, ok = reflect.Select(cases)\n\t} else {\n\t\tv, ok = rch.Recv()\n\t}", "\tv, ok = rch.Recv()"))
 m("C11", "C11-send-ignores-ctx", "R11-block:channelSend", ("channellib.go", "\tif L.ctx != nil {\n\t\tcases := []reflect.SelectCase{{\n\t\t\tDir:  reflect.SelectRecv,\n\t\t\tChan: reflect.ValueOf(L.ctx.Done()),\n\t\t\tSend: reflect.ValueOf(nil),\n\t\t}, {\n\t\t\tDir:  reflect.SelectSend,\n\t\t\tChan: rch,\n\t\t\tSend: reflect.ValueOf(v),\n\t\t}}\n\t\treflect.Select(cases)\n\t} else {\n\t\trch.Send(reflect.ValueOf(v))\n\t}", "\trch.Send(reflect.ValueOf(v))"))
 m("C11", "C11-done-arm-does-not-raise", "R11-poll:mainLoopWithContext:done-arm", ("vm.go", "\t\tcase <-L.ctx.Done():\n\t\t\tL.RaiseError(L.ctx.Err().Error())\n\t\t\treturn\n\t\tdefault:", "\t\tcase <-L.ctx.Done():\n\t\t\tL.Push(LString(L.ctx.Err().Error()))\n\t\tdefault:"))
@@ -214,8 +214,6 @@ m("C06", "C06-status-direct-parent-only", "R06-guard:Status:normal-walks-resumer
 
 m("C06", "C06-resume-nesting-unbounded", "R06-guard:resumeThread:nesting-bounded", ("coroutinelib.go", "\tif depth >= maxResumeDepth {\n\t\t// every nested resume runs on the Go stack of its resumer\n\t\tL.RaiseError(\"C stack overflow\")\n\t}\n", "\t_ = depth\n"))
 
-m("C11", "C11-thread-context-from-creator", "R11-threadctx:NewThread:context-from-the-creators-base", ("state.go", "\t\tthread.ctx, f = context.WithCancel(base)", "\t\tthread.ctx, f = context.WithCancel(ls.ctx)"))
-m("C11", "C11-setcontext-keeps-old-base", "R11-threadctx:SetContext:attached-context-is-its-own-base", ("state.go", "\tls.ctx = ctx\n\tls.ctxParent = nil\n}", "\tls.ctx = ctx\n}"))
 
 m("C01", "C01-constructor-open-ended-for-keyed-call", "R01-constructor:compileTableExpr:open-ended-only-for-positional-last", ("compile.go", "\t\t\tb := pending\n\t\t\tif lastvararg {", "\t\t\tb := pending\n\t\t\tif islast && isVarArgReturnExpr(field.Value) {"))
 m("C01", "C01-constructor-flush-by-total-count", "R01-constructor:compileTableExpr:pending-reset-by-flush", ("compile.go", "\t\tif pending == FieldsPerFlush || (islast && pending > 0) || lastvararg {", "\t\tif (arraycount != 0 && arraycount%FieldsPerFlush == 0) || (islast && pending > 0) || lastvararg {"), ("compile.go", "\t\t\tpending = 0\n", "\t\t\tif islast {\n\t\t\t\tpending = 0\n\t\t\t}\n"))
@@ -323,5 +321,11 @@ m("C02", "C02-tailcall-moves-one-slot-less", "R02-tailframe:TAILCALL:moves-the-w
 m("C04", "C04-unm-handler-one-argument", "R04-events:handler[OP_UNM]:handler-gets-operand-twice", ("vm.go", "\t\t\t\t\treg.Push(unaryv)\n\t\t\t\t\treg.Push(unaryv)\n\t\t\t\t\tL.Call(2, 1)\n", "\t\t\t\t\treg.Push(unaryv)\n\t\t\t\t\tL.Call(1, 1)\n"))
 m("C07", "C07-bulk-move-across-jump-target", "R07-skipgroup:patchCode:bulk-move-ends-at-jump-targets", ("compile.go", "\t// the instructions a jump can land on: a bulk move must not swallow one of them\n\ttarget := make(map[int]bool, len(context.labelPc))\n\tfor _, lpc := range context.labelPc {\n\t\ttarget[lpc+1] = true\n\t}\n", ""), ("compile.go", "\t\tif moven > 0 && target[pc] {\n\t\t\t// a jump lands here: the group ends before this instruction\n\t\t\tif moven > 1 {\n\t\t\t\tcontext.Code.SetOpCode(pc-moven, OP_MOVEN)\n\t\t\t\tcontext.Code.SetC(pc-moven, intMin(moven-1, opMaxArgsC))\n\t\t\t}\n\t\t\tmoven = 0\n\t\t}\n", ""))
 m("C17", "C17-function-statement-line-of-parenthesis", "R17-lines:parser:function-statement-defined-at-its-keyword", ("parse/parser.go", "\t\t\tyyDollar[3].funcexpr.SetLine(yyDollar[1].token.Pos.Line) // linedefined of a function statement is the line of its keyword\n", ""))
+
+for _p in ("C11", "C12"):
+    m(_p, _p + "-kill-cancels-with-live-descendants", "R11-threadctx:kill:releases-only-a-context-without-live-descendants", ("state.go", "\tfor th := ls; th != nil && th.Dead && th.ctxChildren == 0 && th.ctxCancelFn != nil; {", "\tfor th := ls; th != nil && th.Dead && th.ctxCancelFn != nil; {"))
+    m(_p, _p + "-newthread-does-not-count-the-child", "R11-threadctx:NewThread:creator-recorded-and-counted", ("state.go", "\t\tthread.ctxOwner = ls\n\t\tls.ctxChildren++\n", "\t\tthread.ctxOwner = ls\n"))
+m("C11", "C11-context-from-what-the-creators-was-derived-from", "R11-threadctx:NewThread:context-derived-from-the-creators-own", ("state.go", "\t\tthread.ctx, f = context.WithCancel(ls.ctx)\n", "\t\tbase := ls.ctx\n\t\tif ls.ctxOwner != nil && ls.ctxOwner.ctx != nil {\n\t\t\tbase = ls.ctxOwner.ctx\n\t\t}\n\t\tthread.ctx, f = context.WithCancel(base)\n"))
+m("C12", "C12-deep-nested-calls-unbounded", "R12-full:callR:nested-call-depth-bounded", ("state.go", "\tif ls.stack.Sp() >= maxNestedCallDepth {\n\t\tls.RaiseError(\"C stack overflow\")\n\t}\n", ""))
 if __name__ == "__main__":
     main()
